@@ -336,6 +336,24 @@ def check_accept_or_reject(cx, fn, p, evs, P, seen):
                     return "visit_some does not continue with this deserializer"
             seen.add("tag%d" % k)
             return None
+        if n == "deserialize_bool" and is0 is None and is1 is None and len(vis) == 1 and tail_is(vis[0]) \
+                and vis[0]["key"] == VISITOR + "visit_bool" and decide(cx, ("bin", "Le", b, C(1, "u8"), "bool")) is True:
+            # data-dependent form: `visit_bool(byte == 1)` under byte <= 1; check both remaining tag values
+            okb = True
+            for k in (0, 1):
+                b2 = tbl.path_bits(p)
+                try:
+                    b2.cond(("bin", "Eq", b, C(k, "u8"), "bool"), True)
+                    arg = norm(vis[0]["args"][1])
+                    d = (arg == (TRUE if k else FALSE)) if sym.is_c(arg) else (b2.decide(arg) is bool(k))
+                except Top:
+                    d = False
+                if b2.infeasible or not d:
+                    okb = False
+            if okb:
+                seen.update(("tag0", "tag1"))
+                return None
+            return "visit_bool argument is not `tag == 1` for tags 0 and 1"
         if is0 is False and is1 is False:
             if vis:
                 return "a tag other than 0/1 is accepted (%s)" % vis[0]["key"].split("::")[-1]
